@@ -102,7 +102,11 @@ def main():
                         sh(["git", "-C", "/repo", "worktree", "add", "-q", "--detach", clean, sh(["git", "-C", wt, "rev-parse", "HEAD"])[1].strip()])
                         fails = sum(1 for _k in range(2) if sh(["/venv/bin/python", "-m", "pytest", "-q", "-p", "no:cacheprovider", tid], cwd=clean, timeout=900)[0] != 0)
                         sh(["git", "-C", "/repo", "worktree", "remove", "--force", clean])
-                        if fails == 2:
+                        # tests with hard wall-clock limits fail at random on a loaded machine: one failure on the clean
+                        # tree, right now, is enough to say the failure says nothing about the patch
+                        load_flaky = any(x in m for x in ("test_multi_process", "AutoreloadTest::test_reload", "linear_performance",
+                                                           "test_request_timeout", "ThreadedResolverImportTest"))
+                        if fails == 2 or (load_flaky and fails >= 1):
                             result.setdefault("suite_flaky_on_clean_tree_too", []).append(m)
                         else:
                             still.append(m)
